@@ -7,38 +7,38 @@ Local Open Scope Z_scope.
 (* The integer state of a PolarGrid that the index functions read. *)
 Record grid := mkGrid {
   nr   : Z;      (* nr_ *)
-  nth  : Z;      (* ntheta_ *)
+  ntheta : Z;      (* ntheta_ *)
   nsc  : Z;      (* number_smoother_circles_ *)
   lenr : Z;      (* length_smoother_radial_ *)
   ncn  : Z;      (* number_circular_smoother_nodes_ *)
   pow2 : bool    (* is_ntheta_PowerOfTwo_ *)
 }.
 
-Definition nnodes (g : grid) : Z := nr g * nth g.
+Definition nnodes (g : grid) : Z := nr g * ntheta g.
 
 (* ---- specification ---- *)
-Definition spec_wrap (g : grid) (x : Z) : Z := x mod nth g.
+Definition spec_wrap (g : grid) (x : Z) : Z := x mod ntheta g.
 
 Definition spec_index (g : grid) (i j : Z) : Z :=
-  if i <? nsc g then (j mod nth g) + nth g * i
-  else nsc g * nth g + (i - nsc g) + (nr g - nsc g) * (j mod nth g).
+  if i <? nsc g then (j mod ntheta g) + ntheta g * i
+  else nsc g * ntheta g + (i - nsc g) + (nr g - nsc g) * (j mod ntheta g).
 
 Definition spec_multi (g : grid) (k : Z) : Z * Z :=
-  if k <? nsc g * nth g then (k / nth g, k mod nth g)
-  else (nsc g + (k - nsc g * nth g) mod (nr g - nsc g), (k - nsc g * nth g) / (nr g - nsc g)).
+  if k <? nsc g * ntheta g then (k / ntheta g, k mod ntheta g)
+  else (nsc g + (k - nsc g * ntheta g) mod (nr g - nsc g), (k - nsc g * ntheta g) / (nr g - nsc g)).
 
 (* Well-formed integer state, as every constructor leaves it
    (flag_sound: what the constructor's bit trick must guarantee). *)
 Record wf (g : grid) : Prop := mkWf {
   wf_nr   : 2 <= nr g;
-  wf_nth  : 2 <= nth g;
+  wf_nth  : 2 <= ntheta g;
   wf_nsc  : 0 <= nsc g <= nr g;
   wf_lenr : lenr g = nr g - nsc g;
-  wf_ncn  : ncn g = nsc g * nth g;
-  wf_pow2 : pow2 g = true -> exists k, 0 <= k /\ nth g = 2 ^ k
+  wf_ncn  : ncn g = nsc g * ntheta g;
+  wf_pow2 : pow2 g = true -> exists k, 0 <= k /\ ntheta g = 2 ^ k
 }.
 
-Definition in_grid (g : grid) (i j : Z) : Prop := 0 <= i < nr g /\ 0 <= j < nth g.
+Definition in_grid (g : grid) (i j : Z) : Prop := 0 <= i < nr g /\ 0 <= j < ntheta g.
 
 (* ---- circle / radial split (initializeLineSplitting), over an abstract ordered scalar ---- *)
 Section Split.
@@ -85,5 +85,5 @@ Definition coarse_nr (nr_ : Z) : Z := Z.quot (nr_ + 1) 2.
 Definition coarse_nth (nth_ : Z) : Z := Z.quot nth_ 2.
 
 (* ---- neighbour queries (unoptimised API) ---- *)
-Definition nb_theta_m1 (g : grid) (j : Z) : Z := if j - 1 <? 0 then j - 1 + nth g else j - 1.
-Definition nb_theta_p1 (g : grid) (j : Z) : Z := if j + 1 >=? nth g then j + 1 - nth g else j + 1.
+Definition nb_theta_m1 (g : grid) (j : Z) : Z := if j - 1 <? 0 then j - 1 + ntheta g else j - 1.
+Definition nb_theta_p1 (g : grid) (j : Z) : Z := if j + 1 >=? ntheta g then j + 1 - ntheta g else j + 1.
